@@ -401,36 +401,65 @@ static void exec(Ctx &c, const std::vector<long> &op, std::vector<std::unique_pt
     }
 }
 
+static void run_one(const vh::Case &cs) {
+    std::printf("CASE %s\n", cs.name.c_str());
+    std::fflush(stdout);
+    {
+        std::vector<std::unique_ptr<FnCtx>> fns;
+        Ctx c;
+        bool cfg_ok = !cs.ops.empty() && cs.ops[0].size() == 2;
+        long mn = 0, mx = 0;
+        if (cfg_ok) {
+            mn = cs.ops[0][0];
+            mx = cs.ops[0][1];
+            cfg_ok = mn >= 1 && (mx == 0 || mx >= mn);
+        }
+        if (!cfg_ok) {
+            for (size_t i = 0; i < cs.ops.size(); i++) reject(c);
+        } else {
+            if (mn == 1 && mx == 0) c.pub.emplace();
+            else c.pub.emplace(mx == 0 ? std::numeric_limits<std::size_t>::max() : (std::size_t)mx, (std::size_t)mn);
+            c.q = c.pub->get_queue();
+            emit(c, 0, mn, mx, 0);
+            for (size_t i = 1; i < cs.ops.size(); i++) exec(c, cs.ops[i], fns);
+            c.release_helpers();
+        }
+    }
+    std::printf("END\n");
+    std::fflush(stdout);
+}
+
 int main(int argc, char **argv) {
     if (argc < 2) return 2;
     cocls::verif::get_hooks().log = &on_log;
     cocls::verif::get_hooks().block = &on_block;
-    for (auto &cs : vh::read_cases(argv[1])) {
-        std::printf("CASE %s\n", cs.name.c_str());
-        std::fflush(stdout);
-        {
-            std::vector<std::unique_ptr<FnCtx>> fns;
-            Ctx c;
-            bool cfg_ok = !cs.ops.empty() && cs.ops[0].size() == 2;
-            long mn = 0, mx = 0;
-            if (cfg_ok) {
-                mn = cs.ops[0][0];
-                mx = cs.ops[0][1];
-                cfg_ok = mn >= 1 && (mx == 0 || mx >= mn);
-            }
-            if (!cfg_ok) {
-                for (size_t i = 0; i < cs.ops.size(); i++) reject(c);
-            } else {
-                if (mn == 1 && mx == 0) c.pub.emplace();
-                else c.pub.emplace(mx == 0 ? std::numeric_limits<std::size_t>::max() : (std::size_t)mx, (std::size_t)mn);
-                c.q = c.pub->get_queue();
-                emit(c, 0, mn, mx, 0);
-                for (size_t i = 1; i < cs.ops.size(); i++) exec(c, cs.ops[i], fns);
-                c.release_helpers();
-            }
+    // the case file is streamed (the thorough tier has millions of cases): one case is read, run and answered at a time
+    std::ifstream in(argv[1]);
+    std::string line;
+    vh::Case cs;
+    bool open = false;
+    while (std::getline(in, line)) {
+        if (line.empty()) continue;
+        if (!open) {
+            std::istringstream ss(line);
+            std::string kw;
+            ss >> kw;
+            if (kw != "CASE") continue;
+            cs = vh::Case();
+            ss >> cs.engine >> cs.name;
+            open = true;
+            continue;
         }
-        std::printf("END\n");
-        std::fflush(stdout);
+        if (line != "END") {
+            std::istringstream ss(line);
+            std::vector<long> v;
+            long x;
+            while (ss >> x) v.push_back(x);
+            cs.ops.push_back(v);
+            continue;
+        }
+        open = false;
+        run_one(cs);
     }
     return 0;
 }
